@@ -41,6 +41,11 @@ class Prover:
         self._busy = False
         self.I = interp
         self.facts = set(facts)
+        # antisymmetry: a <= b and b <= a (e.g. `if x <= y { if x < y {..} else { HERE } }`) give a == b
+        les = {(f[1], f[2]) for f in self.facts if f[0] == 'le' and len(f) == 3}
+        for a, b in list(les):
+            if (b, a) in les and a != b:
+                self.facts.add(('eq',) + tuple(sorted((a, b), key=repr)))
         self.use_J = use_J
         self.ax = set(extra_axioms)
         self.max_depth = max_depth
@@ -277,7 +282,7 @@ class Prover:
                 return True        # J2
         if self.use_J and self.is_footer_ptr(t) and self.divides(d, C(self.footer_align)):
             return True            # J1
-        if k == 'phi' and self.level < 4:
+        if k == 'phi' and self.level < 7:
             pf = self.I.phi_facts.get(t[1][:2], {}) if self.I else {}
             skip = self.excluded_preds(t[1][:2])
             for p, x in t[2]:
